@@ -13,9 +13,10 @@ from gaddlemaps.components import System
 
 PROPERTY = "C11"
 LEVEL = "exploration"
-RULE = ("(exhaustive) every sequence of 0<len<=4 (quick) / <=6 (thorough) molecules over 5 symbols - single-residue "
+RULE = ("(exhaustive) every sequence of 0<len<=4 (quick) / <=5 (thorough) molecules over 7 symbols - single-residue "
         "species, 3-residue species with a repeated residue, 2-residue species, a species reusing another's residue name "
-        "with another size, and an unloaded solvent - x every permutation of the loading order of the species present; "
+        "with another size, a species ending in the residue kind another one starts with, a second species whose topology "
+        "carries the name of the first, and an unloaded solvent - x every permutation of the loading order of the species present; "
         "(random) Hypothesis: 2..5 random species (1..4 residues, private residue kinds), sequences up to 40 (quick) / "
         "300, random loaded subset and order, one absent species; (history) operation lists on one System: topologies added "
         "one by one by path, open file or MoleculeTop between full walks, partial iterations, (negative) indexing, "
@@ -216,7 +217,7 @@ def check(case):
 
 
 def exhaustive(tier, seed):
-    maxlen = 6 if tier == "thorough" else 4
+    maxlen = 5 if tier == "thorough" else 4          # (7 symbols since rounds 13/14: length 6 would be 2.7 million cases)
     symbols = sorted(FIXED_SPECIES)
     species = {k: [[rn, names] for rn, names in v] for k, v in FIXED_SPECIES.items()}
 
